@@ -512,6 +512,40 @@ Example C17_alter_nonvacuous :
   alterTable_mysql [mkArm KAttr [116]%N; mkArm KOther [99]%N] = None.
 Proof. vm_compute. auto. Qed.
 
+(** ** 2a'. One sub-change carrying several change kinds (PostgreSQL ModifyColumn)
+
+    A ModifyColumn carries a set of change kinds (TYPE, NULL, DEFAULT, identity attribute, generation
+    expression); [alterColumn] writes one ALTER COLUMN clause per kind and the ModifyColumn arm of
+    [alterTable] decides per kind: the ChangeGenerated bit (DROP EXPRESSION) clears the flag.  For
+    every set of kinds with that bit, every column, and every list of arms before and after it: the
+    ALTER carries no reverse (tied to postgres.DefaultPlan on every subset of up to three kinds of a
+    ModifyColumn, alone and next to another sub-change on either side). *)
+Theorem C17_alter_kinds_irreversible :
+  forall (pre post : list arm) (k : ckinds) (col : bytes),
+  k_generated k = true ->
+  alterTable_mysql (pre ++ mkArm (KModCol k) col :: post) = None /\
+  alterTable_postgres (pre ++ mkArm (KModCol k) col :: post) = None.
+Proof. exact alter_kinds_lemma. Qed.
+Print Assumptions C17_alter_kinds_irreversible.
+
+(** ... and a change that does carry a reverse undoes every clause of its Cmd, kind by kind: the clauses
+    ("<kind>:<object>", one per change kind of a ModifyColumn) of the reverse are exactly those of the
+    Cmd -- no kind is left out of the reverse and none is added. *)
+Theorem C17_alter_kinds_complete :
+  forall (arms r : list arm) (c : bytes),
+  (alterTable_mysql arms = Some r) \/ (alterTable_postgres arms = Some r) ->
+  (In c (flat_map arm_clauses arms) <-> In c (flat_map arm_clauses r)).
+Proof. exact alter_clauses_lemma. Qed.
+Print Assumptions C17_alter_kinds_complete.
+
+Example C17_alter_kinds_nonvacuous :
+  (* TYPE + NULL next to a new column: reversed, the two clauses in alterColumn's order *)
+  reverse_objects (alterTable_postgres [mkArm (KModCol (mkKinds true true false false false)) [99]%N; mkArm KOther [110]%N]) =
+    Some [[110]%N; C_TYPE ++ [99]%N; C_NULL ++ [99]%N] /\
+  (* TYPE + DROP EXPRESSION: none *)
+  alterTable_postgres [mkArm KOther [110]%N; mkArm (KModCol (mkKinds true false false false true)) [99]%N] = None.
+Proof. vm_compute. auto. Qed.
+
 (** ** 2b. The flag of the SQLite planner (sql/sqlite/migrate.go: PlanChanges)
 
     The literal statement "Plan.Reversible = every change of Plan.Changes has a reverse" is false
